@@ -41,6 +41,20 @@ impl paseto_core::encodings::Payload for Raw {
     }
 }
 
+/// The same with a non-empty `Payload::SUFFIX` ("x"): tokens read `v4x.local....`
+#[derive(Clone, Debug, PartialEq, Eq)]
+pub struct RawX(pub Vec<u8>);
+impl paseto_core::encodings::Payload for RawX {
+    const SUFFIX: &'static str = "x";
+    fn encode(self, mut writer: impl paseto_core::encodings::WriteBytes) -> Result<(), Box<dyn std::error::Error + Send + Sync>> {
+        writer.write(&self.0);
+        Ok(())
+    }
+    fn decode(payload: &[u8]) -> Result<Self, Box<dyn std::error::Error + Send + Sync>> {
+        Ok(RawX(payload.to_vec()))
+    }
+}
+
 /// What the outside world can observe of a text parser on one input.
 #[derive(Clone, Debug, PartialEq, Eq)]
 pub struct TextOutcome {
